@@ -69,6 +69,12 @@ def _make_orchestrator_class():
             w = _world.WORLD
             if w is not None:
                 w.begin_run()
+                payload = kwargs.get("payload", args[1] if len(args) > 1 else None)
+                try:
+                    w.run_inputs.append({"run": w.cur_run, "context": _world.ctx_snapshot(payload.context),
+                                         "data": _world._data_repr(payload.data)})
+                except Exception:
+                    w.run_inputs.append({"run": w.cur_run, "context": None, "data": None})
             return super().execute(*args, **kwargs)
 
     return SvOrchestrator
